@@ -1,0 +1,49 @@
+//go:build verif
+
+// Contracts for the deductive verifier in /verif (govc). Comment-only: with the
+// verif tag off the compiler never sees this file, with it on it adds no code.
+package pattern
+
+// ---- C18: HasMeta and QuoteMeta, byte by byte ----
+// hm(s, i, open) is the definition of "the pattern has a metacharacter from byte i on": an unescaped * or ?, or an
+// unescaped ] after an unescaped [ (open); a backslash protects the next byte. It is an uninterpreted function whose
+// defining equation is assumed where it is used (a definition, not a fact about the code).
+//@ spec isStar(c byte) bool = c == '*' || c == '?'
+//@ spec hm(s string, i int, open bool) bool
+
+//@ func HasMeta
+//@ props C18
+//@ assume [hm-def] forall(j, forall(o, bool, hm(pat, j, o) == ite(j < 0 || j >= len(pat), false,
+//@     ite(pat[j] == '\\', hm(pat, j+2, o), ite(isStar(pat[j]), true, ite(pat[j] == '[', hm(pat, j+1, true),
+//@     ite(pat[j] == ']', o || hm(pat, j+1, o), hm(pat, j+1, o))))))))
+//@ ensures [scan] result == hm(pat, 0, false)
+//@ ensures [unescaped-star-is-meta] implies(!result, all(k, 0, len(pat), implies(isStar(pat[k]), k > 0 && pat[k-1] == '\\')))
+//@ ensures [plain-text-has-none] implies(all(k, 0, len(pat), pat[k] != '*' && pat[k] != '?' && pat[k] != ']'), !result)
+//@ loop 1 invariant [scan] 0 <= i && hm(pat, 0, false) == hm(pat, i, openBracket)
+//@ loop 1 invariant [stars-so-far-escaped] all(k, 0, len(pat), implies(k < i && isStar(pat[k]), k > 0 && pat[k-1] == '\\'))
+//@ pure
+
+// qm(s, k) is the first k bytes of s with a backslash inserted before every byte that is one of * ? [ \ : what
+// QuoteMeta must return for k == len(s) so that the pattern matches s byte for byte. Uninterpreted, with its defining
+// equations assumed where it is used (stated at the boundaries at which the code appends: one rune's bytes at a time;
+// a metacharacter is ASCII, so it is a rune of its own).
+//@ spec isMetaByte(c byte) bool = c == '*' || c == '?' || c == '[' || c == '\\'
+//@ spec qm(s string, k int) string
+
+// runeStart(s, k): byte k is where a rune starts when s is decoded from its beginning (defining equations assumed
+// where used). The contract of QuoteMeta is stated for valid UTF-8: every rune start decodes validly. (For invalid
+// bytes the whole package works on the replacement character, as regexp does; that is outside the property.)
+//@ spec runeStart(s string, k int) bool
+
+//@ func QuoteMeta
+//@ props C18
+//@ assume [rune-start-zero] runeStart(pat, 0)
+//@ assume [rune-start-step] forall(k, trig(utf8w(pat, k), implies(0 <= k && k < len(pat) && runeStart(pat, k), runeStart(pat, k + utf8w(pat, k)))))
+//@ requires [valid-utf8] forall(k, trig(utf8w(pat, k), implies(0 <= k && k < len(pat) && runeStart(pat, k), utf8valid(pat, k))))
+//@ assume [qm-zero] qm(pat, 0) == ""
+//@ assume [qm-step] forall(k, trig(utf8w(pat, k), implies(0 <= k && k < len(pat), qm(pat, k + utf8w(pat, k)) ==
+//@     ite(isMetaByte(pat[k]), scat(scat(qm(pat, k), bytestr('\\')), ssub(pat, k, k + utf8w(pat, k))), scat(qm(pat, k), ssub(pat, k, k + utf8w(pat, k)))))))
+//@ ensures [unchanged-if-clean] implies(all(k, 0, len(pat), !isMetaByte(pat[k])), result == pat)
+//@ ensures [escaped] implies(any(k, 0, len(pat), isMetaByte(pat[k])), result == qm(pat, len(pat)))
+//@ loop 1 invariant [clean-so-far] 0 <= iterpos() && iterpos() <= len(pat) && all(k, 0, len(pat), implies(k < iterpos(), !isMetaByte(pat[k])))
+//@ loop 2 invariant [built] 0 <= iterpos() && iterpos() <= len(pat) && runeStart(pat, iterpos()) && bstr(&sb) == qm(pat, iterpos())
